@@ -6,9 +6,9 @@
 // skip_to_end) for the one AtomicUsize living inside the iterator object handed to
 // Runner::run*; all other atomics keep their sequential semantics.
 //
-// Prophecy formulation: OWNER[pos] says which worker (by spawn index) claims position pos.
+// Prophecy formulation: S.OWNER[pos] says which worker (by spawn index) claims position pos.
 // A worker's pulls are then determined: its next claim starts at the first position at or
-// after its previous claim that it owns.  OWNER is a symbolic array (scalar terminals) or a
+// after its previous claim that it owns.  S.OWNER is a symbolic array (scalar terminals) or a
 // constant table (Vec-building terminals).  The constraints below keep exactly the tables and
 // spawner observations that a linearisable counter can produce.
 
@@ -22,56 +22,92 @@ pub mod model {
     pub const MAXT: usize = @MAXT@;
     pub const NOBODY: u8 = 255;
 
-    // ---- configuration, set by the harness before the library is called
-    /// schedule model on/off (off: atomics are sequential => "first worker drains all")
-    pub static mut ACTIVE: bool = false;
-    /// value returned by the stub of std::thread::available_parallelism
-    pub static mut AVAILABLE: usize = 2;
-    /// prophecy table: OWNER[pos] = spawn index of the worker that claims pos
-    pub static mut OWNER: [u8; MAXN] = [0; MAXN];
-    /// spawner observation policy: 0 = symbolic, 1 = lazy (sees nothing new), 2 = eager (sees all)
-    pub static mut OBS_POLICY: u8 = 0;
-    /// if non-zero: every pull must request exactly this many positions (C11)
-    pub static mut EXPECT_PULL: usize = 0;
-    /// which run (0-based count of Runner::run* calls) the OWNER table applies to;
-    /// other runs of the same harness get the "first worker drains all" schedule
-    pub static mut MODEL_RUN: usize = 0;
+
+    // All model state lives in ONE static with a distinctive first field.  Reason (measured, see
+    // DESIGN.md): Kani backs constants such as alloc::raw_vec::ZERO_CAP by any existing global whose
+    // initial bytes are identical - a lone `static mut THREAD: usize = 0` became the storage of
+    // ZERO_CAP, so that Vec::new() read capacity 2 once two workers had run.
+    pub struct St {
+        pub magic: u64,
+        pub ACTIVE: bool,
+        pub AVAILABLE: usize,
+        pub OWNER: [u8; MAXN],
+        pub OBS_POLICY: u8,
+        pub EXPECT_PULL: usize,
+        pub MODEL_RUN: usize,
+        pub OBS_P: [u8; MAXOBS],
+        pub OBS_K: usize,
+        pub CUT_P: u8,
+        pub LEN: usize,
+        pub CLAIMED: [bool; MAXN],
+        pub CLAIMED_BY: [u8; MAXN],
+        pub IS_END: [bool; MAXN + 1],
+        pub PHASE: u8,
+        pub THREAD: usize,
+        pub LAST_END: usize,
+        pub FLOOR: usize,
+        pub PROGRESS: usize,
+        pub FINISHED: bool,
+        pub CUT: usize,
+        pub SKIPPED: [bool; MAXT],
+        pub RUNS: usize,
+        pub SCOPES: usize,
+        pub SPAWNS: usize,
+        pub MAX_SPAWNS: usize,
+        pub PULLS: usize,
+        pub BAD_PULL_SIZE: bool,
+        pub PULL_AFTER_SKIP: bool,
+        pub PULL_AFTER_MATCH: bool,
+        pub MATCHED: [bool; MAXT],
+        pub FIRST_PULL_SIZE: [usize; MAXT],
+        pub WORKER_LOAD: bool,
+    }
+    pub static mut S: St = St {
+        magic: 0x5eed_c0de_0bad_f00d,
+        ACTIVE: false,
+        AVAILABLE: 2,
+        OWNER: [0; MAXN],
+        OBS_POLICY: 0,
+        EXPECT_PULL: 0,
+        MODEL_RUN: 0,
+        OBS_P: [0; MAXOBS],
+        OBS_K: 0,
+        CUT_P: 0,
+        LEN: 0,
+        CLAIMED: [false; MAXN],
+        CLAIMED_BY: [NOBODY; MAXN],
+        IS_END: [false; MAXN + 1],
+        PHASE: 0,
+        THREAD: 0,
+        LAST_END: 0,
+        FLOOR: 0,
+        PROGRESS: 0,
+        FINISHED: false,
+        CUT: usize::MAX,
+        SKIPPED: [false; MAXT],
+        RUNS: 0,
+        SCOPES: 0,
+        SPAWNS: 0,
+        MAX_SPAWNS: 0,
+        PULLS: 0,
+        BAD_PULL_SIZE: false,
+        PULL_AFTER_SKIP: false,
+        PULL_AFTER_MATCH: false,
+        MATCHED: [false; MAXT],
+        FIRST_PULL_SIZE: [0; MAXT],
+        WORKER_LOAD: false,
+    };
+
     /// prophecy of the spawning thread's observations (k-th look at the counter) and of the cut
     pub const MAXOBS: usize = 12;
-    pub static mut OBS_P: [u8; MAXOBS] = [0; MAXOBS];
-    pub static mut OBS_K: usize = 0;
-    pub static mut CUT_P: u8 = 0;
 
     // ---- state
-    pub static mut LEN: usize = 0;
-    pub static mut CLAIMED: [bool; MAXN] = [false; MAXN];
-    pub static mut CLAIMED_BY: [u8; MAXN] = [NOBODY; MAXN];
-    pub static mut IS_END: [bool; MAXN + 1] = [false; MAXN + 1];
-    pub static mut PHASE: u8 = 0; // 0 outside a scope, 1 spawner inside scope, 2 inside a task
-    pub static mut THREAD: usize = 0; // spawn index of the running / next worker
-    pub static mut LAST_END: usize = 0;
-    pub static mut FLOOR: usize = 0; // counter value known to precede the running worker's spawn
-    pub static mut PROGRESS: usize = 0;
-    pub static mut FINISHED: bool = false;
-    pub static mut CUT: usize = usize::MAX;
-    pub static mut SKIPPED: [bool; MAXT] = [false; MAXT];
 
     // ---- observations for the properties
-    pub static mut RUNS: usize = 0;
-    pub static mut SCOPES: usize = 0;
-    pub static mut SPAWNS: usize = 0; // spawns of the current run
-    pub static mut MAX_SPAWNS: usize = 0; // max over runs
-    pub static mut PULLS: usize = 0; // pulls on the modelled iterator, all runs
-    pub static mut BAD_PULL_SIZE: bool = false;
-    pub static mut PULL_AFTER_SKIP: bool = false;
-    pub static mut PULL_AFTER_MATCH: bool = false;
-    pub static mut MATCHED: [bool; MAXT] = [false; MAXT]; // set by harness predicates
-    pub static mut FIRST_PULL_SIZE: [usize; MAXT] = [0; MAXT];
-    pub static mut WORKER_LOAD: bool = false;
 
     fn is_iter(this: &AtomicUsize) -> bool {
         unsafe {
-            let base = orx_parallel::verif::ITER_PTR;
+            let base = orx_parallel::verif::RUN.iter;
             if base.is_null() {
                 return false;
             }
@@ -80,33 +116,33 @@ pub mod model {
     }
 
     fn modelled() -> bool {
-        unsafe { ACTIVE && RUNS == MODEL_RUN + 1 }
+        unsafe { S.ACTIVE && S.RUNS == S.MODEL_RUN + 1 }
     }
 
     pub fn on_run_begin<I: ConcurrentIterX>(iter: &I) {
         unsafe {
-            orx_parallel::verif::ITER_PTR = iter as *const I as *const u8;
-            RUNS += 1;
-            FINISHED = false;
-            PHASE = 0;
-            THREAD = 0;
-            SPAWNS = 0;
-            PROGRESS = 0;
-            OBS_K = 0;
-            CUT = usize::MAX;
+            orx_parallel::verif::RUN.iter = iter as *const I as *const u8;
+            S.RUNS += 1;
+            S.FINISHED = false;
+            S.PHASE = 0;
+            S.THREAD = 0;
+            S.SPAWNS = 0;
+            S.PROGRESS = 0;
+            S.OBS_K = 0;
+            S.CUT = usize::MAX;
             let mut i = 0;
             while i < MAXN {
-                CLAIMED[i] = false;
-                CLAIMED_BY[i] = NOBODY;
-                IS_END[i] = false;
+                S.CLAIMED[i] = false;
+                S.CLAIMED_BY[i] = NOBODY;
+                S.IS_END[i] = false;
                 i += 1;
             }
-            IS_END[MAXN] = false;
+            S.IS_END[MAXN] = false;
             if modelled() {
                 match iter.try_get_initial_len() {
                     Some(n) => {
                         assert!(n <= MAXN, "VERIF-MODEL: length above model bound");
-                        LEN = n;
+                        S.LEN = n;
                     }
                     None => assert!(false, "VERIF-MODEL: schedule model needs a known length"),
                 }
@@ -116,27 +152,27 @@ pub mod model {
 
     pub fn on_scope_begin() {
         unsafe {
-            PHASE = 1;
-            SCOPES += 1;
+            S.PHASE = 1;
+            S.SCOPES += 1;
         }
     }
 
     pub fn on_task_begin() {
         unsafe {
-            PHASE = 2;
-            LAST_END = 0;
-            FLOOR = PROGRESS;
-            SPAWNS += 1;
-            if SPAWNS > MAX_SPAWNS {
-                MAX_SPAWNS = SPAWNS;
+            S.PHASE = 2;
+            S.LAST_END = 0;
+            S.FLOOR = S.PROGRESS;
+            S.SPAWNS += 1;
+            if S.SPAWNS > S.MAX_SPAWNS {
+                S.MAX_SPAWNS = S.SPAWNS;
             }
         }
     }
 
     pub fn on_task_end() {
         unsafe {
-            PHASE = 1;
-            THREAD += 1;
+            S.PHASE = 1;
+            S.THREAD += 1;
         }
     }
 
@@ -146,19 +182,19 @@ pub mod model {
             if modelled() {
                 let mut i = 0;
                 while i < MAXN {
-                    if i < LEN && i < CUT {
-                        kani::assume(CLAIMED[i]);
+                    if i < S.LEN && i < S.CUT {
+                        kani::assume(S.CLAIMED[i]);
                     }
                     i += 1;
                 }
             }
-            FINISHED = true;
+            S.FINISHED = true;
         }
     }
 
     pub fn on_scope_end() {
         unsafe {
-            PHASE = 0;
+            S.PHASE = 0;
         }
     }
 
@@ -166,53 +202,53 @@ pub mod model {
     pub fn fetch_add(this: &AtomicUsize, val: usize, _o: Ordering) -> usize {
         unsafe {
             if modelled() && is_iter(this) {
-                if PHASE != 2 {
+                if S.PHASE != 2 {
                     // only workers pull
                     assert!(false, "VERIF-MODEL: pull outside a task");
                 }
-                PULLS += 1;
-                if EXPECT_PULL != 0 && val != EXPECT_PULL {
-                    BAD_PULL_SIZE = true;
+                S.PULLS += 1;
+                if S.EXPECT_PULL != 0 && val != S.EXPECT_PULL {
+                    S.BAD_PULL_SIZE = true;
                 }
-                if THREAD < MAXT {
-                    if SKIPPED[THREAD] {
-                        PULL_AFTER_SKIP = true;
+                if S.THREAD < MAXT {
+                    if S.SKIPPED[S.THREAD] {
+                        S.PULL_AFTER_SKIP = true;
                     }
-                    if MATCHED[THREAD] {
-                        PULL_AFTER_MATCH = true;
+                    if S.MATCHED[S.THREAD] {
+                        S.PULL_AFTER_MATCH = true;
                     }
-                    if FIRST_PULL_SIZE[THREAD] == 0 {
-                        FIRST_PULL_SIZE[THREAD] = val;
+                    if S.FIRST_PULL_SIZE[S.THREAD] == 0 {
+                        S.FIRST_PULL_SIZE[S.THREAD] = val;
                     }
                 }
-                let lo = if LAST_END > FLOOR { LAST_END } else { FLOOR };
+                let lo = if S.LAST_END > S.FLOOR { S.LAST_END } else { S.FLOOR };
                 // first position >= lo owned by this worker
-                let mut b = LEN;
+                let mut b = S.LEN;
                 let mut i = MAXN;
                 while i > 0 {
                     i -= 1;
-                    if i >= lo && i < LEN && OWNER[i] as usize == THREAD {
+                    if i >= lo && i < S.LEN && S.OWNER[i] as usize == S.THREAD {
                         b = i;
                     }
                 }
-                if b >= LEN || b >= CUT {
-                    return LEN; // this worker sees the source exhausted
+                if b >= S.LEN || b >= S.CUT {
+                    return S.LEN; // this worker sees the source exhausted
                 }
-                let e = if val < LEN - b { b + val } else { LEN };
-                kani::assume(e <= CUT);
+                let e = if val < S.LEN - b { b + val } else { S.LEN };
+                kani::assume(e <= S.CUT);
                 let mut i = 0;
                 while i < MAXN {
                     if i >= b && i < e {
-                        kani::assume(OWNER[i] as usize == THREAD);
-                        kani::assume(!CLAIMED[i]);
-                        CLAIMED[i] = true;
-                        CLAIMED_BY[i] = THREAD as u8;
+                        kani::assume(S.OWNER[i] as usize == S.THREAD);
+                        kani::assume(!S.CLAIMED[i]);
+                        S.CLAIMED[i] = true;
+                        S.CLAIMED_BY[i] = S.THREAD as u8;
                     }
                     i += 1;
                 }
                 // a claim starts where another one ended (or at 0)
-                IS_END[e] = true;
-                LAST_END = e;
+                S.IS_END[e] = true;
+                S.LAST_END = e;
                 b
             } else {
                 let p = this.as_ptr();
@@ -230,11 +266,11 @@ pub mod model {
             let mut all = true;
             let mut i = 0;
             while i < MAXN {
-                if i < LEN {
-                    if !CLAIMED[i] {
+                if i < S.LEN {
+                    if !S.CLAIMED[i] {
                         all = false;
                     }
-                    if all && IS_END[i + 1] {
+                    if all && S.IS_END[i + 1] {
                         p = i + 1;
                     }
                 }
@@ -247,35 +283,35 @@ pub mod model {
     pub fn load(this: &AtomicUsize, _o: Ordering) -> usize {
         unsafe {
             if modelled() && is_iter(this) {
-                if PHASE == 1 {
+                if S.PHASE == 1 {
                     // the spawning thread looks at the counter
-                    let p: usize = match OBS_POLICY {
-                        1 => PROGRESS,
+                    let p: usize = match S.OBS_POLICY {
+                        1 => S.PROGRESS,
                         2 => claimed_prefix_boundary(),
                         _ => {
-                            assert!(OBS_K < MAXOBS, "VERIF-MODEL: more spawner observations than modelled");
-                            let p = OBS_P[OBS_K] as usize;
-                            OBS_K += 1;
+                            assert!(S.OBS_K < MAXOBS, "VERIF-MODEL: more spawner observations than modelled");
+                            let p = S.OBS_P[S.OBS_K] as usize;
+                            S.OBS_K += 1;
                             p
                         }
                     };
-                    kani::assume(p >= PROGRESS && p <= LEN);
-                    kani::assume(p == 0 || IS_END[p]);
+                    kani::assume(p >= S.PROGRESS && p <= S.LEN);
+                    kani::assume(p == 0 || S.IS_END[p]);
                     let mut i = 0;
                     while i < MAXN {
                         if i < p {
-                            kani::assume(CLAIMED[i]);
+                            kani::assume(S.CLAIMED[i]);
                         }
                         i += 1;
                     }
-                    PROGRESS = p;
+                    S.PROGRESS = p;
                     p
-                } else if PHASE == 2 {
-                    WORKER_LOAD = true;
+                } else if S.PHASE == 2 {
+                    S.WORKER_LOAD = true;
                     assert!(false, "VERIF-MODEL: unmodelled load by a worker");
                     0
-                } else if FINISHED {
-                    LEN
+                } else if S.FINISHED {
+                    S.LEN
                 } else {
                     *this.as_ptr()
                 }
@@ -289,27 +325,27 @@ pub mod model {
     pub fn fetch_max(this: &AtomicUsize, val: usize, _o: Ordering) -> usize {
         unsafe {
             if modelled() && is_iter(this) {
-                if PHASE != 2 {
+                if S.PHASE != 2 {
                     assert!(false, "VERIF-MODEL: skip_to_end outside a task");
                 }
-                if THREAD < MAXT {
-                    SKIPPED[THREAD] = true;
+                if S.THREAD < MAXT {
+                    S.SKIPPED[S.THREAD] = true;
                 }
-                if CUT == usize::MAX {
-                    let c: usize = CUT_P as usize;
-                    kani::assume(c >= LAST_END && c <= LEN);
-                    kani::assume(c == 0 || IS_END[c]);
+                if S.CUT == usize::MAX {
+                    let c: usize = S.CUT_P as usize;
+                    kani::assume(c >= S.LAST_END && c <= S.LEN);
+                    kani::assume(c == 0 || S.IS_END[c]);
                     let mut i = 0;
                     while i < MAXN {
-                        if i >= c && i < LEN {
-                            kani::assume(!CLAIMED[i]);
+                        if i >= c && i < S.LEN {
+                            kani::assume(!S.CLAIMED[i]);
                         }
                         i += 1;
                     }
-                    CUT = c;
+                    S.CUT = c;
                     c
                 } else {
-                    LEN
+                    S.LEN
                 }
             } else {
                 let p = this.as_ptr();
@@ -333,7 +369,7 @@ pub mod model {
     pub fn no_lag() {}
 
     pub fn available_parallelism() -> std::io::Result<NonZeroUsize> {
-        unsafe { Ok(NonZeroUsize::new(AVAILABLE).unwrap()) }
+        unsafe { Ok(NonZeroUsize::new(S.AVAILABLE).unwrap()) }
     }
 
     /// Switch the schedule model on for a source of `n` positions and `t` available threads.
@@ -344,11 +380,11 @@ pub mod model {
     pub fn begin(n: usize, t: usize, owners: Option<[u8; MAXN]>, obs_policy: u8) {
         unsafe {
             assert!(n <= MAXN && t <= MAXT);
-            ACTIVE = true;
-            AVAILABLE = t;
-            OBS_POLICY = obs_policy;
+            S.ACTIVE = true;
+            S.AVAILABLE = t;
+            S.OBS_POLICY = obs_policy;
             match owners {
-                Some(tab) => OWNER = tab,
+                Some(tab) => S.OWNER = tab,
                 None => {
                     let tab: [u8; MAXN] = kani::any();
                     let mut i = 0;
@@ -358,12 +394,12 @@ pub mod model {
                         }
                         i += 1;
                     }
-                    OWNER = tab;
+                    S.OWNER = tab;
                 }
             }
             let obs: [u8; MAXOBS] = kani::any();
-            OBS_P = obs;
-            CUT_P = kani::any();
+            S.OBS_P = obs;
+            S.CUT_P = kani::any();
         }
     }
 
@@ -383,7 +419,7 @@ pub mod model {
     /// value reported by std::thread::available_parallelism (without touching the schedule model)
     pub fn set_available(k: usize) {
         unsafe {
-            AVAILABLE = k;
+            S.AVAILABLE = k;
         }
     }
 
@@ -391,8 +427,8 @@ pub mod model {
     /// the source and later workers come back empty
     pub fn begin_unscheduled(t: usize) {
         unsafe {
-            ACTIVE = false;
-            AVAILABLE = t;
+            S.ACTIVE = false;
+            S.AVAILABLE = t;
         }
     }
 
@@ -401,29 +437,29 @@ pub mod model {
     pub fn probe(_pos: usize) {}
     pub fn matched() {
         unsafe {
-            if PHASE == 2 && THREAD < MAXT {
-                MATCHED[THREAD] = true;
+            if S.PHASE == 2 && S.THREAD < MAXT {
+                S.MATCHED[S.THREAD] = true;
             }
         }
     }
 
     // ---- accessors (same API natively)
-    pub fn scopes() -> usize { unsafe { SCOPES } }
-    pub fn runs() -> usize { unsafe { RUNS } }
-    pub fn max_spawns() -> usize { unsafe { MAX_SPAWNS } }
-    pub fn pulls() -> usize { unsafe { PULLS } }
-    pub fn bad_pull_size() -> bool { unsafe { BAD_PULL_SIZE } }
-    pub fn pull_after_skip() -> bool { unsafe { PULL_AFTER_SKIP } }
-    pub fn pull_after_match() -> bool { unsafe { PULL_AFTER_MATCH } }
-    pub fn cut() -> usize { unsafe { CUT } }
-    pub fn claimed_by(pos: usize) -> u8 { unsafe { CLAIMED_BY[pos] } }
-    pub fn expect_pull(c: usize) { unsafe { EXPECT_PULL = c; } }
-    pub fn model_run(k: usize) { unsafe { MODEL_RUN = k; } }
+    pub fn scopes() -> usize { unsafe { S.SCOPES } }
+    pub fn runs() -> usize { unsafe { S.RUNS } }
+    pub fn max_spawns() -> usize { unsafe { S.MAX_SPAWNS } }
+    pub fn pulls() -> usize { unsafe { S.PULLS } }
+    pub fn bad_pull_size() -> bool { unsafe { S.BAD_PULL_SIZE } }
+    pub fn pull_after_skip() -> bool { unsafe { S.PULL_AFTER_SKIP } }
+    pub fn pull_after_match() -> bool { unsafe { S.PULL_AFTER_MATCH } }
+    pub fn cut() -> usize { unsafe { S.CUT } }
+    pub fn claimed_by(pos: usize) -> u8 { unsafe { S.CLAIMED_BY[pos] } }
+    pub fn expect_pull(c: usize) { unsafe { S.EXPECT_PULL = c; } }
+    pub fn model_run(k: usize) { unsafe { S.MODEL_RUN = k; } }
     pub fn any_matched() -> bool {
         unsafe {
             let mut i = 0;
             let mut r = false;
-            while i < MAXT { r |= MATCHED[i]; i += 1; }
+            while i < MAXT { r |= S.MATCHED[i]; i += 1; }
             r
         }
     }
@@ -431,7 +467,7 @@ pub mod model {
         unsafe {
             let mut i = 0;
             let mut r = false;
-            while i < MAXT { r |= SKIPPED[i]; i += 1; }
+            while i < MAXT { r |= S.SKIPPED[i]; i += 1; }
             r
         }
     }
